@@ -181,6 +181,8 @@ type Check struct {
 	Minimise func(f *Found) *Found
 	// SingleProcess: run in one worker only.
 	SingleProcess bool
+	// PostRun runs once in the driver after the workers (e.g. the -race pass).
+	PostRun func(res *Result, tier string)
 }
 
 // Registry of checks.
